@@ -26,6 +26,19 @@ a message may be padded with a long (valid) chunk extension to a length just ins
 limit in force, or anywhere between the default and the limit in force; the malformation
 "overlong" pads it to a length beyond the limit in force.
 
+Trailer section near its documented limit: the class documentation of the decoder names _maxTrailerHeadersSize (2**16) as
+the "maximum bytes for trailer header".  A share of the reference-encoded messages gets its trailer section (the field lines with
+their CRLFs; the empty line that ends the message is not a trailer header) padded by 1..3 more field lines to exactly that limit,
+one byte less, a few bytes less or anywhere in the last 6000 bytes below it, and is cut mostly around the CRLFs of the trailer
+lines, around the final CRLF (before it, between its CR and LF, after it) and where the received part reaches the limit.  Such a
+message is inside the documented limits: the round trip is demanded for every segmentation.  Trailer sections beyond the limit
+are not generated (the statement names no verdict for them).
+
+End of the stream after a rejection: every decoder that rejected its input is told at once that the stream has ended
+(noMoreData(), what the HTTP client does after giving a response up); in a quarter of the malformed runs the stream really ends
+with the malformed element (truncation and malformation together), otherwise the rest of the message is simply never delivered.
+The last chunk was never accepted and completion never signalled, so this end of the stream is a loss.
+
 Decoders are independent objects: in the malformed family the malformed stream and the
 valid stream it was derived from are fed, in a tape-chosen order, to several fresh
 decoders within the same run (each with its own segmentation) and every one of them is
@@ -37,7 +50,8 @@ message in that delivery; the same stream in one piece gives the same result;
 truncation before the last-chunk line is complete -> _DataLoss from noMoreData();
 a complete message -> noMoreData() does not raise; each malformation ->
 _MalformedChunkedDataError by the end of the stream, finish never called,
-delivered data a prefix of the body that precedes the malformation.  A size line whose
+delivered data a prefix of the body that precedes the malformation, and noMoreData() after the rejection raises _DataLoss
+(and calls nothing back).  A size line whose
 length including its CRLF is at most the limit in force is inside the documented limits
 (round trip demanded); a size line whose length without CRLF exceeds the limit in force
 must be refused; lengths in between (the documentation does not say whether the CRLF
@@ -53,7 +67,8 @@ ID = "C22"
 ENGINE = "net"
 LEVEL = "exploration"
 TECHNIQUE = ("deterministic simulation: seeded chunk/extension/trailer grammar, byte-level malformations and truncation, size lines "
-             "near the (per-run) documented limit, seeded segmentation into several fresh real _ChunkedTransferDecoder objects per "
+             "near the (per-run) documented limit, trailer sections at the documented limit, end of stream after a rejection, "
+             "seeded segmentation into several fresh real _ChunkedTransferDecoder objects per "
              "run vs the original chunk list")
 QUICK_RUNS = 55000
 TWIN_P = 0.08   # this share of the runs drives two independent instances of the scenario one after the other (detsim.runner._run_scenario)
@@ -73,14 +88,22 @@ RULE = ("run = 0..5 chunks (sizes 1..3000, rarely 70000) encoded by toChunk or b
         "other bytes / one byte such as bare LF or bare CR / nothing / 1..3 drawn bytes, lineend = a size line ended by bare LF, "
         "bare CR, LF CR, CR CR LF or LF CR LF, overlong = line padded beyond the limit in "
         "force); malformed family: 1..3 fresh decoders get the malformed stream, optionally the valid original in between or "
-        "before, each judged; delivered in tape-chosen pieces; non-trivial = the stream was cut at least once")
+        "before, each judged, each told after its rejection that the stream ended (noMoreData -> _DataLoss); in 25% of them the "
+        "stream ends with the malformed element; 4% of the reference-encoded messages carry a trailer section padded to the "
+        "documented 2**16 bytes (field lines with CRLFs) or up to 40 (rarely 6000) bytes less, cut around the trailer CRLFs and the "
+        "final CRLF; delivered in tape-chosen pieces; non-trivial = the stream was cut at least once")
 ASSUMPTIONS = [
-    "trailers stay far below 64 KiB (the documented limit); size lines are either <= limit-2 bytes (inside the documented "
+    "trailer sections are at most 2**16 bytes counting every field line with its CRLF and not the empty line that ends the "
+    "message (the documented limit is on the 'trailer header' bytes; the empty line is not one); larger ones are not generated; "
+    "size lines are either <= limit-2 bytes (inside the documented "
     "limit under every reading of 'length of the CRLF-terminated line') or >= limit+1 bytes (outside under every reading); "
     "the two lengths in between are not generated",
     "http.maxChunkSizeLineLength is set before any decoder of the run is built and not changed while one is alive",
     "after finishCallback the caller stops feeding the decoder (as HTTPChannel does), so 'extra bytes' are those that "
     "followed the end of the message within the same delivery",
+    "a caller that was given _MalformedChunkedDataError delivers nothing more to that decoder (HTTPChannel answers 400 and "
+    "closes, the client gives the response up); what further dataReceived calls would do is not judged, only the noMoreData() "
+    "that follows the rejection",
     "no BWS between chunk-size and ';' is generated (the decoder rejects it; RFC 9112 tolerates it on receipt)",
     "terminator variants (bare LF, bare CR, ...) are generated only where the statement names a verdict: after chunk data "
     "('chunk data not followed by CRLF') and at the end of a size line (the line up to the next CRLF then holds a CR/LF: not "
@@ -95,6 +118,10 @@ TERM_TWO = [b"XY", b"\n\r", b"\r\r", b"\nX", b"\rX", b"", b"\x00\n"]      # two 
 TERM_ONE = [b"\n", b"\r", b"X", b"\x00", b" "]                          # one byte only (the next size line follows at once)
 # what may end a size line instead of CRLF
 LINE_ENDS = [b"\n", b"\r", b"\n\r", b"\r\r\n", b"\n\r\n"]
+# Documented limit of the trailer section (class documentation of the decoder: "_maxTrailerHeadersSize: Maximum bytes for trailer
+# header", 2**16): the field lines with their CRLFs.  The empty line that ends the message is not a trailer header.
+TRAILER_LIMIT = 2 ** 16
+BIG_TRAILER_P = 0.04      # share of the reference-encoded messages whose trailer section is padded to the limit or just below it
 RECUT = ["whole", "one", "few", "edges"]      # segmentation styles for the further decoders of a run (the first gets every style)
 
 
@@ -158,7 +185,7 @@ def long_target(sim, limit, base, inside):
 
 def gen_message(sim, limit):
     chunks = [gen_chunk(sim) for _ in range(sim.draw_int(0, 5, "nchunks"))]
-    info = {"tochunk": False, "ext": False, "trailers": 0, "long": None}
+    info = {"tochunk": False, "ext": False, "trailers": 0, "long": None, "bigtrailer": None}
     if sim.draw_bool(0.3, "toChunk"):
         info["tochunk"] = True
         wire0 = b"".join(b"".join(http.toChunk(c)) for c in chunks) + b"0\r\n\r\n"
@@ -184,6 +211,26 @@ def gen_message(sim, limit):
         sim.probe("long_line_inside_limit")
         if base + len(pad) >= DEFAULT_LIMIT:
             sim.probe("long_line_inside_raised_limit_beyond_default")
+    if sim.draw_bool(BIG_TRAILER_P, "bigtrailer"):
+        # trailer section (field lines with their CRLFs) padded by 1..3 more field lines to exactly the documented limit, one
+        # byte less, or a little below: still inside the limit, so the round trip is demanded for every segmentation
+        cur = sum(len(t) + 2 for t in trailers)
+        total = sim.draw_weighted([(TRAILER_LIMIT, 3), (TRAILER_LIMIT - 1, 2), (TRAILER_LIMIT - sim.draw_int(2, 40, "tbelow"), 3),
+                                   (sim.draw_int(TRAILER_LIMIT - 6000, TRAILER_LIMIT, "tany"), 1)], "trailertotal")
+        room = total - cur
+        nlines = sim.draw_int(1, 3, "padlines")
+        sizes_ = []
+        for i in range(nlines - 1):
+            sizes_.append(sim.draw_weighted([(sim.draw_int(6, 60, "shortpad"), 2), (sim.draw_int(6, room // 2, "anypad"), 1)], "padsize"))
+            room -= sizes_[-1]
+        sizes_.insert(sim.draw_int(0, len(sizes_), "bigpos"), room)       # the big line first, in the middle or last
+        fill = bytes([sim.draw_choice(list(b"a \t~\xe9"), "tfill")])
+        for k, sz in enumerate(sizes_):
+            trailers.append(b"P%d:" % k + fill * (sz - 5))                 # sz bytes with its CRLF
+        assert sum(len(t) + 2 for t in trailers) == total <= TRAILER_LIMIT, (total, sizes_)
+        info["bigtrailer"] = total
+        sim.probe("trailer_section_at_limit" if total == TRAILER_LIMIT else "trailer_section_just_below_limit"
+                  if total >= TRAILER_LIMIT - 40 else "trailer_section_large")
     info["ext"] = any(exts) or bool(last_ext)
     info["trailers"] = len(trailers)
     info["parts"] = (sizes, exts, last, last_ext, trailers)
@@ -209,6 +256,33 @@ def layout_bounds(layout, limit=None):
                 if e is not None and e - a > lim - 60:
                     b.update(x for x in (a + lim, a + lim + 1) if x < e + 2)
     return sorted(b)
+
+
+def trailer_bounds(layout, trailers):
+    """Preferred cut points of a message with a large trailer section: around every trailer line's CRLF, around the final
+    CRLF (before it, between its CR and LF, after it) and where the received part of the section reaches the limit."""
+    pos = layout["last_line_end"]
+    b = {pos, layout["end"] - 2, layout["end"] - 1, layout["end"], pos + TRAILER_LIMIT, pos + TRAILER_LIMIT - 1}
+    for t in trailers:
+        pos += len(t) + 2
+        b.update((pos - 2, pos - 1, pos))
+    assert pos == layout["end"] - 2
+    return sorted(x for x in b if 0 < x <= layout["end"])
+
+
+def cut_message(sim, stream, bounds, info):
+    """Segmentation of a stream; for a message with a large trailer section mostly near the places trailer_bounds names
+    (a uniformly drawn cut point would almost never fall there)."""
+    style = None
+    if info["bigtrailer"]:
+        style = sim.draw_weighted([("edges", 5), (None, 2), ("exact", 3)], "bigcut")
+        if style == "exact":
+            pts = sorted({sim.draw_choice(bounds, "exactcut") for _ in range(sim.draw_int(1, 3, "nexact"))})
+            pts = [x for x in pts if 0 < x < len(stream)]
+            pieces = [stream[a:b] for a, b in zip([0] + pts, pts + [len(stream)])]
+            sim.fault("segmentation", len(pieces) - 1)
+            return pieces
+    return net.cut(sim, stream, style, bounds)
 
 
 class Sink:
@@ -251,6 +325,19 @@ def short(b, n=60):
     return repr(b if len(b) <= n else b[:n // 2] + b"..." + b[-n // 2:])
 
 
+def end_of_stream(sim, dec, ctx):
+    """The stream ends here: noMoreData().  -> the _DataLoss raised, or None when the decoder reports a complete message."""
+    try:
+        dec.noMoreData()
+    except http._DataLoss as e:
+        return e
+    except Violation:
+        raise
+    except Exception as e:
+        sim.fail("unexpected-exception", type(e).__name__, lambda: "noMoreData raised %r; %s" % (e, ctx()))
+    return None
+
+
 def judge_valid(sim, pieces, E, body, what, ctx):
     """A complete valid message of E bytes (+ whatever follows it) delivered as `pieces` to a fresh decoder."""
     sink, exc, idx, dec = feed(sim, pieces, body, what)
@@ -277,6 +364,15 @@ def judge_malformed(sim, pieces, want, kind, decisive, ctx):
               lambda: "no _MalformedChunkedDataError (finished=%r, delivered %s); %s" % (sink.finished, short(bytes(sink.data)), ctx()))
     if sum(len(p) for p in pieces[:idx]) >= decisive:
         sim.probe("rejected_after_a_later_delivery")   # still a rejection: no verdict on promptness
+    # The caller that was given the rejection stops delivering (HTTPChannel answers 400, the client gives the response up) and
+    # the stream ends there: the last chunk was never accepted and completion never signalled, so the end of the stream is a loss.
+    loss = end_of_stream(sim, dec, ctx)
+    sim.fault("stream_end_after_rejection")
+    sim.check("rejected-stream-end-not-reported", loss is not None, kind,
+              lambda: "after the rejection (%r) the stream ended: noMoreData() did not raise _DataLoss although the last chunk "
+                      "was never accepted; %s" % (exc, ctx()))
+    sim.check("finish-after-rejection", not sink.finished, kind,
+              lambda: "finishCallback(%r) called by noMoreData() of a decoder that had rejected its input; %s" % (sink.finished, ctx()))
 
 
 def run(sim):
@@ -300,18 +396,31 @@ def _run(sim, limit):
     body = b"".join(chunks)
     E = layout["end"]
     sim.config = {"family": family, "chunks": [len(c) for c in chunks], "tochunk": info["tochunk"], "ext": info["ext"],
-                  "trailers": info["trailers"], "limit": limit, "long": info["long"]}
+                  "trailers": info["trailers"], "limit": limit, "long": info["long"], "bigtrailer": info["bigtrailer"]}
     if info["tochunk"]:
         sim.check("tochunk-format", wire == ref_wire, "toChunk",
                   lambda: "toChunk encoding %s differs from the reference encoding %s" % (short(wire), short(ref_wire)))
-    bounds = layout_bounds(layout, limit)
-    what = "longline" if info["long"] else "plain" if not (info["ext"] or info["trailers"]) else ("ext" if info["ext"] else "trailer")
-    lim = "maxChunkSizeLineLength=%d%s" % (limit, "" if not info["long"] else ", size line %d is %d bytes long" % info["long"])
+    bounds = layout_bounds(layout, limit) if not info["bigtrailer"] else trailer_bounds(layout, info["parts"][4])
+    what = "trailerlimit" if info["bigtrailer"] else "longline" if info["long"] else "plain" if not (info["ext"] or info["trailers"]) else ("ext" if info["ext"] else "trailer")
+    lim = "maxChunkSizeLineLength=%d%s%s" % (limit, "" if not info["long"] else ", size line %d is %d bytes long" % info["long"],
+                                             "" if not info["bigtrailer"] else ", trailer section of %d bytes (field lines with their "
+                                             "CRLFs; documented limit %d)" % (info["bigtrailer"], TRAILER_LIMIT))
 
     if family == "valid":
         extra = sim.draw_bytes(sim.draw_int(0, 30, "extralen"), b"0\r\n5;GET /x")
         stream = wire + extra
-        pieces = net.cut(sim, stream, None, bounds)
+        pieces = cut_message(sim, stream, bounds, info)
+        if info["bigtrailer"]:
+            offs, o = set(), 0
+            for p_ in pieces[:-1]:
+                o += len(p_)
+                offs.add(o)
+            if E - 1 in offs:
+                sim.probe("large_trailer_final_crlf_split_between_cr_and_lf")
+            if E - 2 in offs:
+                sim.probe("large_trailer_split_before_final_crlf")
+            if any(layout["last_line_end"] < x < E - 2 for x in offs):
+                sim.probe("large_trailer_split_inside_section")
         sim.event("valid", short(wire), "extra", extra, "pieces", len(pieces))
         ctx = lambda: "message %s (chunks %r) + extra %r in pieces of %r; %s" % (short(wire, 120), [len(c) for c in chunks], extra,
                                                                                [len(p) for p in pieces][:20], lim)
@@ -327,7 +436,7 @@ def _run(sim, limit):
         t = sim.draw_weighted([(sim.draw_int(0, E - 1, "cutat"), 3),
                                (max(0, min(E - 1, sim.draw_choice(edges, "edge") + sim.draw_int(-2, 1, "off"))), 4)], "cutkind")
         stream = wire[:t]
-        pieces = net.cut(sim, stream, None, bounds)
+        pieces = cut_message(sim, stream, bounds, info)
         sim.fault("truncation")
         sim.event("truncated", short(wire), "at", t, "of", E, "pieces", len(pieces))
         ctx = lambda: "message %s (chunks %r) truncated at %d of %d (last-chunk line ends at %d), pieces %r; %s" % (
@@ -337,15 +446,7 @@ def _run(sim, limit):
             clause = "valid-rejected" if isinstance(exc, http._MalformedChunkedDataError) else "unexpected-exception"
             sim.fail(clause, what if clause == "valid-rejected" else type(exc).__name__, lambda: "%r; %s" % (exc, ctx()))
         sim.check("finish-early", not sink.finished, what, lambda: "finishCallback(%r) before the end of the message; %s" % (sink.finished, ctx()))
-        loss = None
-        try:
-            dec.noMoreData()
-        except http._DataLoss as e:
-            loss = e
-        except Violation:
-            raise
-        except Exception as e:
-            sim.fail("unexpected-exception", type(e).__name__, lambda: "noMoreData raised %r; %s" % (e, ctx()))
+        loss = end_of_stream(sim, dec, ctx)
         if t < layout["last_line_end"]:
             sim.check("truncation-not-reported", loss is not None, what, lambda: "noMoreData() did not raise _DataLoss; " + ctx())
         else:
@@ -445,6 +546,12 @@ def _run(sim, limit):
                 if length < DEFAULT_LIMIT:
                     sim.probe("overlong_for_lowered_limit_below_default")
             want = b"".join(chunks[:j])
+        if decisive < len(stream) and sim.draw_bool(0.25, "endsthere"):
+            # truncation and malformation together: the stream ends with the malformed element (nothing of the rest of the
+            # message, in particular no last-chunk, follows it)
+            stream = stream[:decisive]
+            desc += ", the stream ends right after it"
+            sim.fault("truncation_after_malformation")
         mbounds += [decisive, decisive - 2]
         sim.fault("malformed_" + kind)
         # Decoders are independent: the malformed stream goes to 1..3 fresh decoders of this run, the valid message it was
@@ -509,5 +616,15 @@ MUTANTS = [
     "_dataReceived_CRLF accepts a lone CR (consumes 1 byte when CR is not followed by LF) : caught (body-prefix:nocrlf, malformed-accepted:nocrlf/after-V)",
     "_dataReceived_CHUNK_LENGTH: size line ends at the first LF, preceding CR optional : caught (malformed-accepted:lineend, body-prefix:lineend)",
     "_dataReceived_CHUNK_LENGTH: '_hexint(bytes(rawLength).strip())' (stray CR/LF/blank around the size tolerated) : caught (malformed-accepted:lineend, body-prefix:nonhex)",
+    "seeded C22-r6b (dataReceived sets state FINISHED when a handler rejects the input) : caught in quick "
+    "(rejected-stream-end-not-reported:badext/overlong/nonhex/...) - missed while a decoder was dropped right after its rejection",
+    "_dataReceived_CRLF: 'self.state = \"FINISHED\"' put before 'raise _MalformedChunkedDataError(\"Chunk did not end with CRLF\")' "
+    ": caught (rejected-stream-end-not-reported:nocrlf)",
+    "the repair 8dc962f of /repo reverted (no-EOL branch of _dataReceived_TRAILER counts the lone CR of the final CRLF) : caught "
+    "(valid-rejected:trailerlimit, trailer section of 65535/65536 bytes cut between the final CR and LF)",
+    "_dataReceived_TRAILER: '_receivedTrailerHeadersSize > _maxTrailerHeadersSize' -> '>=' : caught (valid-rejected:trailerlimit)",
+    "_dataReceived_TRAILER: '(1 if self._buffer.endswith(b\"\\r\") else 2)' -> '2' : caught (valid-rejected:trailerlimit)",
+    "_dataReceived_TRAILER: 'minTrailerSize > _maxTrailerHeadersSize' -> '>=' : caught (valid-rejected:trailerlimit)",
+    "_dataReceived_TRAILER: '_receivedTrailerHeadersSize += eolIndex + 2' -> '+ 3' : caught (valid-rejected:trailerlimit)",
     "INCLUDE_QUOTED_PAIR=True on the unchanged tree: C22:valid-rejected:ext (extension ;a=\"\\\"\" rejected: backslash missing from _chunkExtChars) - not enabled by default, see report",
 ]
